@@ -377,6 +377,9 @@ class Gen:
         mdl = self.model_expr(s)
         if mdl is not None:
             return mdl
+        nc = getattr(self, 'named_consts', {}).get(segs[-1])
+        if nc is not None:
+            return nc
         return 'rt.FnItem(%r)' % s
 
     # ---------------------------------------------------------------- rvalues
@@ -638,8 +641,32 @@ class Gen:
         return '\n'.join(head + body_lines + tail) + '\n'
 
 
+NAMED_CONST_RE = re.compile(r'^const (?:[\w:<>]+::)?(\w+): (\w+) = const (.+);$', re.M)
+
+
+def named_constants(mir_text):
+    """`const NAME: usize = const 2_usize;` items of the dump (constants declared in the crate): last path segment -> python
+    literal.  Only scalar literals; anything else stays an unsupported operand."""
+    out = {}
+    for m in NAMED_CONST_RE.finditer(mir_text):
+        name, ty, val = m.group(1), m.group(2), m.group(3).strip()
+        mm = re.match(r'^(-?\d+)_(?:[ui]\d+|[ui]size)$', val)
+        if mm:
+            v = mm.group(1)
+        elif val in ('true', 'false'):
+            v = 'True' if val == 'true' else 'False'
+        else:
+            continue
+        if name in out and out[name] != v:
+            out[name] = None         # ambiguous short name: leave unsupported
+        else:
+            out[name] = v
+    return {k: v for k, v in out.items() if v is not None}
+
+
 def generate_module(mir_text, src_root):
     bodies, errors = mp.parse_all(mir_text, lambda h: True)
     src_files = [os.path.join(src_root, 'src', f) for f in ('engine.rs', 'lib.rs')]
     g = Gen(bodies, errors, src_root, src_files)
+    g.named_consts = named_constants(mir_text)
     return g.generate(), g
